@@ -23,7 +23,7 @@ def linksInsideB (D : Path) (s : FS) : Bool :=
   s.keys.all fun p => !isPrefix D p ||
     match s.get p with
     | some (.link t) =>
-      (match linkDest D s fuel0 p t with
+      (match linkDest D s (fuelFor s t.comps) p t with
        | .ok r => isPrefix D r
        | .error _ => true)
     | _ => true
